@@ -512,7 +512,8 @@ pub fn run_item(prop: &str, tier: &str, idx: usize, only: Option<&Value>) -> MRe
     let (kn, en) = if norenameat2 { ("K-norenameat2", "E-norenameat2") } else { ("K", "E") };
     let extra: Vec<String> = if norenameat2 { vec!["renameat2".into()] } else { vec![] };
     let mut k = Wk::spawn(kn, &Setup { jail: JAIL.into(), deny: extra.clone(), umask: Some(umask), ..Default::default() })?;
-    let mut e = Wk::spawn(en, &Setup { jail: JAIL.into(), deny: [vec!["openat2".to_string()], extra].concat(), umask: Some(umask), ..Default::default() })?;
+    // every third item: "no openat2" the way an old seccomp profile produces it (EPERM, also for the new mount API)
+    let mut e = Wk::spawn(en, &Setup { jail: JAIL.into(), deny: [if item_idx % 3 == 1 { Wk::old_profile_deny() } else { vec!["openat2".to_string()] }, extra].concat(), umask: Some(umask), ..Default::default() })?;
     k.timeout_ms = 60_000; e.timeout_ms = 60_000;
     let root_out = out(ROOT_IN);
     let rootfd = open_path(&root_out)?;
